@@ -92,6 +92,29 @@ Section FailExpr.
     split; [intros; apply jk_lpop_frame|]. unfold lpop_frame. eapply fr_bind; [exact Ptrans|apply fr_get, Prefl|intros s]. destruct (l_locals s); [apply fr_panic|apply fr_set_llocals, Prefl].
   Qed.
 
+  Lemma pfr_eval_lv F lv : pfr (eval_lv' F lv).
+  Proof. split; [intros; apply jk_eval_lv|apply fr_eval_lv; [exact Hcall|exact Prefl|exact Ptrans]]. Qed.
+  Lemma pfr_leager fuel le e : pfr (leager t fl glob call fuel le e).
+  Proof. unfold leager. apply pfr_bind; [apply pfr_leval|intros lv; apply pfr_eval_lv]. Qed.
+  Lemma pfr_ltest_cond fuel le c : pfr (ltest_cond t fl glob call fuel le c).
+  Proof. split; [intros; apply jk_ltest_cond|apply fr_ltest_cond; [exact Hcall|exact Prefl|exact Ptrans]]. Qed.
+  Lemma pfr_lunscoped_set le name v : pfr (lunscoped_set glob le name v).
+  Proof. split; [intros; apply jk_lunscoped_set|apply fr_lunscoped_set; [exact Prefl|exact Ptrans]]. Qed.
+  Lemma pfr_lpoll l : pfr (lpoll l). Proof. split; [intros; apply jk_lpoll|apply fr_lpoll, Prefl]. Qed.
+  Lemma pfr_lpoll_n n l : pfr (lpoll_n n l). Proof. split; [intros; apply jk_lpoll_n|apply fr_lpoll_n; [exact Prefl|exact Ptrans]]. Qed.
+  Lemma pfr_noresult {B} (ml : M lstate B) : (forall s p a s' p', ml s p <> Ok (a, s', p')) -> pfr ml.
+  Proof. intros H. split; [intros; apply jk_noresult, H|]. intros s p a s' p' E. exfalso. eapply H; eauto. Qed.
+  Lemma pfr_lift {B} (r : res B) : pfr (lift r).
+  Proof.
+    split; [|apply fr_lift, Prefl]. intros rhoK dt s p a s' p' Hb HJ H. apply lift_ok in H as (_ & -> & ->). auto.
+  Qed.
+  Lemma pfr_ctx {B} c (ml : M lstate B) : pfr ml -> pfr (ctx_wrap c ml).
+  Proof.
+    intros [H1 H2]. split; [|apply fr_ctx; [exact I|exact H2]]. intros rhoK dt s p a s' p' Hb HJ H. apply ctx_wrap_ok in H. eapply H1; eauto.
+  Qed.
+  Lemma pfr_iterM {X} (f : X -> M lstate unit) l : (forall x, pfr (f x)) -> pfr (iterM f l).
+  Proof. intros H. split; [intros; apply jk_iterM; intros x; apply (H x)|apply fr_iterM; [exact Prefl|exact Ptrans|intros x; apply (H x)]]. Qed.
+
   (* ---------------- the failure relation for expression-level computations ---------------- *)
   Definition fpostE {B} (Bd : list value -> B -> Prop) (rho : list value) (ls : lstate) : B -> lstate -> polls -> Prop :=
     fun b ls' pl' => nob pl' /\ EFr ls ls' /\ exists rhoK, prefix rho rhoK /\ sbk rhoK (l_store ls') /\ Bd rhoK b.
